@@ -826,21 +826,39 @@ func runT6(p *an.Prog, r *an.Result) {
 		return
 	}
 	name := an.FuncName(fn)
-	var format string
+	// the pattern handed to the regexp compiler, as a sequence of constant text and computed pieces
+	// (a constant format with arguments, or a concatenation)
+	var pieces []patPiece
 	found := false
-	for _, c := range callsNamed(fn, "fmt.Sprintf") {
-		if s, ok := an.ConstString(c.Call.Args[0]); ok {
-			format, found = s, true
-		}
+	for _, f := range unitWithHelpers(p, fn) {
+		an.EachInstr(f, func(in ssa.Instruction) {
+			c, ok := in.(*ssa.Call)
+			if !ok || found {
+				return
+			}
+			if cn := an.CallName(&c.Call); cn != "regexp.MustCompile" && cn != "regexp.Compile" {
+				return
+			}
+			if ps, ok := symbolicString(c.Call.Args[0], 0); ok {
+				pieces, found = ps, true
+			}
+		})
 	}
 	if !found {
-		r.Bad(name, "token pattern is not a constant format", an.FuncPos(fn), "the rule instantiates the pattern statically; a computed format cannot be checked")
+		r.Bad(name, "token pattern is not built from constant text and quoted pieces", an.FuncPos(fn), "the rule reads the pattern as constant text with computed pieces in between (a constant format or a concatenation); this one cannot be read that way")
 		return
 	}
-	// instantiate: every verb stands for a quoted literal fragment
-	pat := format
-	for _, verb := range []string{"%s", "%v"} {
-		pat = strings.ReplaceAll(pat, verb, "Z")
+	format, pat := "", ""
+	var holes []ssa.Value
+	for _, pc := range pieces {
+		if pc.hole != nil {
+			format += "%s"
+			pat += "Z"
+			holes = append(holes, pc.hole)
+		} else {
+			format += pc.text
+			pat += pc.text
+		}
 	}
 	re, err := syntax.Parse(pat, syntax.Perl)
 	if err != nil {
@@ -873,25 +891,12 @@ func runT6(p *an.Prog, r *an.Result) {
 	// which delimiter feeds which place of the pattern: the delimiter fragments are QuoteMeta(delims[k]) for
 	// k = 0, 1, 2, 3 in the order they appear, and the exclusion expression (the one fragment that is not a
 	// quoted delimiter) is built from the same delimiter as the fragment that closes the tag alternative
-	for _, c := range callsNamed(fn, "fmt.Sprintf") {
-		if _, ok := an.ConstString(c.Call.Args[0]); !ok || len(c.Call.Args) < 2 {
-			continue
-		}
+	{
 		args := map[int64]ssa.Value{}
-		if sl, ok := c.Call.Args[1].(*ssa.Slice); ok {
-			if al, ok := sl.X.(*ssa.Alloc); ok && al.Referrers() != nil {
-				for _, au := range *al.Referrers() {
-					if ia, ok := au.(*ssa.IndexAddr); ok && ia.Referrers() != nil {
-						k, _ := an.ConstInt(ia.Index)
-						for _, uu := range *ia.Referrers() {
-							if st, ok := uu.(*ssa.Store); ok && st.Addr == ssa.Value(ia) {
-								args[k] = st.Val
-							}
-						}
-					}
-				}
-			}
+		for k, h := range holes {
+			args[int64(k)] = h
 		}
+		c := struct{ Pos func() token.Pos }{func() token.Pos { return an.FuncPos(fn) }}
 		delimIndexOf := func(v ssa.Value) (int64, bool) {
 			// v is delims[k] (a load of an IndexAddr with a constant index on the parameter)
 			for _, o := range an.Origins(v, an.StepValue) {
@@ -1660,4 +1665,94 @@ func instrsOf(fn *ssa.Function) []ssa.Instruction {
 	var out []ssa.Instruction
 	an.EachInstr(fn, func(in ssa.Instruction) { out = append(out, in) })
 	return out
+}
+
+// patPiece is a piece of a string built at run time: constant text, or a computed value.
+type patPiece struct {
+	text string
+	hole ssa.Value
+}
+
+// symbolicString reads v as a concatenation of constants and computed pieces: string constants,
+// +, and fmt.Sprintf with a constant format (each verb becomes the corresponding argument).
+func symbolicString(v ssa.Value, depth int) ([]patPiece, bool) {
+	if depth > 12 {
+		return nil, false
+	}
+	switch x := v.(type) {
+	case *ssa.Const:
+		if s, ok := an.ConstString(x); ok {
+			return []patPiece{{text: s}}, true
+		}
+		return nil, false
+	case *ssa.MakeInterface:
+		return symbolicString(x.X, depth+1)
+	case *ssa.BinOp:
+		if x.Op != token.ADD {
+			return nil, false
+		}
+		l, ok1 := symbolicString(x.X, depth+1)
+		r, ok2 := symbolicString(x.Y, depth+1)
+		if !ok1 || !ok2 {
+			return nil, false
+		}
+		return append(l, r...), true
+	case *ssa.Call:
+		if an.CallName(&x.Call) == "fmt.Sprintf" {
+			format, ok := an.ConstString(x.Call.Args[0])
+			if !ok || len(x.Call.Args) < 2 {
+				return nil, false
+			}
+			args := map[int64]ssa.Value{}
+			if sl, ok := x.Call.Args[1].(*ssa.Slice); ok {
+				if al, ok := sl.X.(*ssa.Alloc); ok && al.Referrers() != nil {
+					for _, au := range *al.Referrers() {
+						if ia, ok := au.(*ssa.IndexAddr); ok {
+							k, _ := an.ConstInt(ia.Index)
+							for _, sv := range an.Stores(ia) {
+								args[k] = sv
+							}
+						}
+					}
+				}
+			}
+			var out []patPiece
+			k := int64(0)
+			rest := format
+			for {
+				i := strings.Index(rest, "%")
+				if i < 0 || i+1 >= len(rest) {
+					out = append(out, patPiece{text: rest})
+					break
+				}
+				out = append(out, patPiece{text: rest[:i]})
+				switch rest[i+1] {
+				case '%':
+					out = append(out, patPiece{text: "%"})
+				case 's', 'v':
+					a, ok := args[k]
+					if !ok {
+						return nil, false
+					}
+					if mi, isMI := a.(*ssa.MakeInterface); isMI {
+						a = mi.X
+					}
+					if sub, ok := symbolicString(a, depth+1); ok && len(sub) == 1 && sub[0].hole == nil {
+						out = append(out, sub[0])
+					} else {
+						out = append(out, patPiece{hole: a})
+					}
+					k++
+				default:
+					return nil, false
+				}
+				rest = rest[i+2:]
+			}
+			return out, true
+		}
+		return []patPiece{{hole: x}}, true
+	case *ssa.UnOp, *ssa.Phi, *ssa.Extract:
+		return []patPiece{{hole: v}}, true
+	}
+	return nil, false
 }
